@@ -172,6 +172,11 @@ class PersistentVector(
             return len(self) < len(other)
 
         for x, y in zip(self, other):
+            # nil is less than all values, except itself
+            if x is None or y is None:
+                if x is y:
+                    continue
+                return x is None
             if x < y:
                 return True
             elif y < x:
